@@ -33,8 +33,8 @@ def run(cx):
     if "NoCut" not in rf.invariant_violated:
         raise vlib.Inconclusive("the pinned design (Faithful = TRUE) no longer violates NoCut: the invariant would be vacuous")
     # ---- G: enumerate histories
-    maxlen = 3 if cx.quick() else 4
-    cfg = "CONSTANT MaxLen = %d\nINIT Init\nNEXT Next\nINVARIANT Emit\nCHECK_DEADLOCK FALSE\n" % maxlen
+    maxlen = 3
+    cfg = "CONSTANTS MaxLen = %d\n MaxLate = %d\nINIT Init\nNEXT Next\nINVARIANT Emit\nCHECK_DEADLOCK FALSE\n" % (maxlen, 1 if cx.quick() else 2)
     rh = cx.tlc("VMRunHist", cfg_text=cfg, workers=4, name="hist_gen", timeout=1800, heap="6g")
     cx.tlc_must_pass(rh, "VMRunHist")
     hists = [json.loads(s) for s in rh.tuples("HIST")]
@@ -44,15 +44,17 @@ def run(cx):
         # length 5 and 6 sampled (seeded)
         import random
         rnd = random.Random(cx.seed)
-        kinds = ["normal", "error", "panic", "overflow", "cancelled"]
-        for _ in range(6000):
-            n = rnd.choice([5, 6])
+        kinds = ["normal", "error", "panic", "deeppanic", "overflow", "cancelled"]
+        for _ in range(8000):
+            n = rnd.choice([4, 5, 6])
             inv, used = [], set()
             for i in range(1, n + 1):
-                late = [c for c in range(1, i) if c not in used and rnd.random() < 0.3]
+                kind = rnd.choice(kinds)
+                ctxk = rnd.choice(["cancel", "background"]) if kind in ("normal", "error") else "cancel"
+                late = [c for c in range(1, i) if c not in used and inv[c - 1]["ctx"] == "cancel" and rnd.random() < 0.3]
                 used.update(late)
-                inv.append({"api": rnd.choice(["RunCode", "Call"]), "kind": rnd.choice(kinds), "late": late})
-            exp = [{"normal": "value", "error": "index error", "panic": "panic", "overflow": "anyerror", "cancelled": "ctxerr"}[v["kind"]] for v in inv]
+                inv.append({"api": rnd.choice(["RunCode", "Call"]), "kind": kind, "ctx": ctxk, "late": late})
+            exp = [{"normal": "value", "error": "index error", "panic": "panic", "deeppanic": "panic", "overflow": "anyerror", "cancelled": "ctxerr"}[v["kind"]] for v in inv]
             hists.append({"inv": inv, "exp": exp})
     rows = [{"id": i, "inv": h["inv"], "exp": h["exp"]} for i, h in enumerate(hists)]
     hin = cx.path("hist.ndjson")
@@ -137,9 +139,10 @@ def run(cx):
     cx.cover.update({
         "evaluations": ninv, "distinct_nontrivial": nontriv, "traces_validated_against_impl": len(traces),
         "histories": len(rows), "max_history_length_exhaustive": maxlen, "exhaustive": True,
-        "rule": "all histories of length <= %d over {RunCode, Call} x {normal, error, panic, overflow, cancelled} x late cancellations of "
-                "earlier contexts (each context cancelled late at most once), enumerated by TLC (VMRunHist); non-trivial = history with a "
-                "late cancellation or a non-normal invocation before the last one" % maxlen,
+        "rule": "all histories of length <= %d over {RunCode, Call} x {normal, error, panic, panic 600 frames deep, overflow, cancelled} x "
+                "{cancellable context, context.Background()} x late cancellations of earlier contexts (each context cancelled late at most "
+                "once, at most 1 (quick) / 2 (thorough) per history), enumerated by TLC (VMRunHist); thorough adds sampled histories of length "
+                "4-6; non-trivial = history with a late cancellation or a non-normal invocation before the last one" % maxlen,
     })
     cx.assumptions += ["Call invocations use the functions of the code that is loaded at that point (as risor.Call does); calling a function of a "
                        "code object that a later RunCode unloaded is outside the histories",
